@@ -19,6 +19,22 @@ sys.path.insert(0, ROOT)
 S = -1  # star
 
 HISTORIES = {
+    # seeded C04E: another selected session is told about a multi-flag STORE only if the LAST listed flag
+    # changed something (every order of "changes" / "changes nothing" among the listed flags, + and -)
+    "multi_flag_store_partly_noop": [
+        ("append", "A", "inbox", ["Seen"], 0), ("append", "A", "inbox", ["Flagged"], 0),
+        ("append", "A", "inbox", ["Seen", "Flagged", "k1"], 0),
+        ("select", "A", "inbox"), ("select", "B", "inbox"), ("noop", "B"),
+        ("store", "A", [[1, 1]], "+", ["Flagged", "Seen"], False, False), ("noop", "B"),
+        ("store", "A", [[2, 2]], "+", ["Flagged", "Answered"], False, False), ("noop", "B"),
+        ("store", "A", [[2, 2]], "+", ["k1", "Flagged"], False, True), ("noop", "B"),
+        ("store", "A", [[3, 3]], "-", ["k1", "Deleted"], False, False), ("noop", "B"),
+        ("store", "A", [[3, 3]], "-", ["Answered", "Flagged"], False, False), ("noop", "B"),
+        ("store", "A", [[1, 3]], "-", ["Seen", "Draft"], False, False), ("noop", "B"),
+        ("store", "A", [[1, 3]], "=", ["Seen"], False, False), ("noop", "B"),
+        ("store", "A", [[1, 3]], "=", ["Seen"], False, False), ("noop", "B"),
+        ("fetch", "B", [[1, S]], "flags", False),
+    ],
     # S1: EXISTS pushed directly to a session that still has EXPUNGEs pended
     "exists_jumps_pended_expunge": [
         ("append", "A", "inbox", [], 0), ("append", "A", "inbox", [], 0),
